@@ -106,7 +106,7 @@ def rule_messages(rep: Report, rid="C14.msg") -> None:
     got = _str_parts(m) if m else []
     # the position prefix is built from the location chosen below; compare the message body only
     nprefix = 4
-    ok_body = len(got) >= len(_merge([const("): ")] + want_body)) and got[-(len(want_body)):] [1:] == want_body[1:] \
+    ok_body = len(got) >= len(_merge([const("): ")] + want_body)) and all(same_string(a_, b_) for a_, b_ in zip(got[-(len(want_body)):][1:], want_body[1:])) \
         and is_const(got[-len(want_body)]) and str(got[-len(want_body)][1]).endswith("): expected: ")
     rep.ob(rid, "an unexpected-line message lists the expected token kinds joined by ', ' and quotes the trimmed line", ok_body, **kw,
            expected=[fmt(x, I) for x in want_body], found=[fmt(x, I) for x in got[-len(want_body):]])
